@@ -6,13 +6,9 @@ import (
 	"fmt"
 	"os"
 	"path/filepath"
-	"reflect"
 	"regexp"
-	"runtime"
 	"strconv"
 	"strings"
-	"sync"
-	"time"
 
 	rt "github.com/arnodel/golua/runtime"
 
@@ -29,81 +25,6 @@ import (
 
 func init() {
 	core.Register(&core.Engine{Name: "gc", Run: runGC})
-}
-
-type limboEntry struct {
-	obj interface{}
-	fin interface{}
-}
-
-type collector struct {
-	mu    sync.Mutex
-	limbo []limboEntry
-	live  map[uintptr]bool
-}
-
-var theCollector *collector
-
-func (c *collector) setFinalizer(obj interface{}, fin interface{}) {
-	if fin == nil {
-		runtime.SetFinalizer(obj, nil)
-		return
-	}
-	// the wrapper must have the type func(T) for obj of type T
-	ot := reflect.TypeOf(obj)
-	wrapper := reflect.MakeFunc(reflect.FuncOf([]reflect.Type{ot}, nil, false), func(args []reflect.Value) []reflect.Value {
-		c.mu.Lock()
-		c.limbo = append(c.limbo, limboEntry{obj: args[0].Interface(), fin: fin})
-		c.mu.Unlock()
-		return nil
-	})
-	runtime.SetFinalizer(obj, nil)
-	runtime.SetFinalizer(obj, wrapper.Interface())
-}
-
-// barrier runs the Go collector until no more objects arrive in limbo.
-func (c *collector) barrier() {
-	for round := 0; round < 4; round++ {
-		c.mu.Lock()
-		before := len(c.limbo)
-		c.mu.Unlock()
-		runtime.GC()
-		// wait for the finalizer goroutine to drain its queue: a sentinel finalizer
-		done := make(chan struct{})
-		s := new([16]byte)
-		runtime.SetFinalizer(s, func(*[16]byte) { close(done) })
-		s = nil
-		runtime.GC()
-		select {
-		case <-done:
-		case <-time.After(2 * time.Second):
-		}
-		c.mu.Lock()
-		after := len(c.limbo)
-		c.mu.Unlock()
-		if after == before && round > 0 {
-			break
-		}
-	}
-}
-
-// deliver calls the pool's finalizer callback for the k-th limbo entry.
-func (c *collector) deliver(k int) {
-	c.mu.Lock()
-	if k >= len(c.limbo) {
-		c.mu.Unlock()
-		return
-	}
-	e := c.limbo[k]
-	c.limbo = append(c.limbo[:k], c.limbo[k+1:]...)
-	c.mu.Unlock()
-	reflect.ValueOf(e.fin).Call([]reflect.Value{reflect.ValueOf(e.obj)})
-}
-
-func (c *collector) pending() int {
-	c.mu.Lock()
-	defer c.mu.Unlock()
-	return len(c.limbo)
 }
 
 type udVal struct {
@@ -163,6 +84,15 @@ local function remark(o)
   setmetatable(o, {__gc = function(o) emit("gc2", o.id, inctx()) end})
   emit("mark", o.id)
 end
+local MAIN = coroutine.running()
+local peekmt = {__gc = function(o) local tb = debug.traceback(MAIN, "tb", 0) for l = 0, 2 do debug.getinfo(MAIN, l, "Sl") end end}
+local function unwind(n, every)
+  if n == 0 then return 0 end
+  local r = unwind(n - 1, every)
+  setmetatable({}, peekmt)
+  if n % every == 0 then collect(0) end
+  return r + 1
+end
 local function ud(id, withgc)
   local u
   if withgc then u = mkud(id, function() emit("gc", id, inctx()) end) else u = mkud(id) end
@@ -177,8 +107,9 @@ func (g *gcGen) stmts(n int) {
 		if g.budget < 0 {
 			return
 		}
-		w := []int{5, 3, 3, 3, 3, 2, 2, 2, 1, 3, 1, 2, 2}
+		w := []int{5, 3, 3, 3, 3, 2, 2, 2, 1, 3, 1, 2, 2, 1}
 		if g.depth >= 1 {
+			w[13] = 0
 			w[10] = 0
 			w[11] = 0 // the io library is not allowed under limits
 			w[12] = 0
@@ -309,6 +240,10 @@ func (g *gcGen) stmts(n int) {
 			default:
 				g.ln(`do local f = io.open(FILE_OUT, "a") f:write("x") end`)
 			}
+		case 13: // finalisers that look at the main thread's stack while it unwinds a deep recursion
+			// (continuations are being handed back to their pool: what the main thread "is running" must
+			// never be one of those); the values are anonymous and silent, the oracle does not follow them
+			g.ln(`unwind(%d, %d)`, 40+g.t.Choose(200), 8+g.t.Choose(40))
 		case 8: // unlimited context shares the pool of its parent
 			g.depth++
 			g.ln(`emit("sharedctx", runtime.callcontext({}, function()`)
